@@ -6,6 +6,22 @@ props = [json.loads(l) for l in open(os.path.join(ROOT, "properties.jsonl"))]
 
 # id -> (technique, level text, level note, design ref)
 CHECKS = {
+ "C08": ("metamorphic testing: same input and schedule under every combination of diagnostic/housekeeping options",
+         "HTML tokens and trees under exact_errors x profile, XML tokens and trees under exact_errors x profile, discard_bom and drop_doctype relations, over grammar-generated inputs with text runs placed for the SIMD path. Exploration.",
+         "profile=true output redirected away from stdout during the run.",
+         "DESIGN.md 4 C08"),
+ "C15": ("metamorphic testing over xml5ever: chunking, exact_errors, newline/NUL normalisation, BOM; every partition of a pool of short inputs + generated documents",
+         "One-piece default run vs any chunking, exact_errors=true, and the newline/NUL-normalised input, at token and tree level (ModelDom and RcDom).",
+         "Trusted: the normalisation function (CRLF/CR->LF, NUL->U+FFFD) as the statement of what the tokenizer must do.",
+         "DESIGN.md 4 C15"),
+ "C16": ("model-based oracle: independent lexical-scope namespace resolver over the generated source tags, evaluated along the output tree's ancestor chain; enumerated two-level family + random generation",
+         "Each output element/attribute's namespace is recomputed from the declarations on its own and its tree ancestors' source tags; attribute lists must be the source attributes minus justified expanded-name duplicates.",
+         "Elements/attributes with unbound prefixes are not asserted; declarations are not counted as attributes.",
+         "DESIGN.md 4 C16"),
+ "C17": ("round-trip property test: parse -> serialize -> parse over generated namespaced XML",
+         "Canonical dumps of T and of parse(serialize(T)) must be equal (names, prefixes, namespaces, values, text, comments, PIs).",
+         "Trees are those reachable by parsing; doctype excluded.",
+         "DESIGN.md 4 C17"),
  "C01": ("differential testing against an independent reference tokenizer: bounded-exhaustive short strings from every tokenizer state + grammar/noise random generation (proptest-driven, shrinking)",
          "html5ever's token stream is compared, after the normalisation the property states, with an independent character-at-a-time transcription of WHATWG 13.2.5 under the same start state, last-start-tag name and sink policy: exhaustively for all strings up to length 3 (thorough 4) over a 26-character alphabet from ~150 starts, length 4 (5) from the fragment-selectable states, plus random token soup. Exploration: held on all generated cases.",
          "Trusted: harness/src/refimpl/tokenizer.rs as transcription of the standard; entity table from Python's html.entities.html5; cold starts asserted only for token-free states.",
